@@ -1,4 +1,5 @@
 use crate::il::Expression as Expr;
+use crate::architecture::Endian;
 use crate::il::*;
 use crate::Error;
 use falcon_capstone::capstone;
@@ -1058,14 +1059,33 @@ pub fn lw(
     Ok(())
 }
 
+/// The unaligned word accesses select bytes by the position of the address in
+/// its aligned word, counted from the most-significant end of the word: that
+/// position is `address & 3` on big-endian and `3 - (address & 3)` on
+/// little-endian. Returns it as a number of bits (0, 8, 16 or 24); `from_left`
+/// is true for lwl/swl, false for lwr/swr (which count from the other end).
+fn unaligned_bits(address: &Expr, endian: &Endian, from_left: bool) -> Result<Expr, Error> {
+    let byte = Expr::and(address.clone(), expr_const(3, 32))?;
+    let big = matches!(endian, Endian::Big);
+    let bytes = if big == from_left {
+        byte
+    } else {
+        Expr::sub(expr_const(3, 32), byte)?
+    };
+    Expr::shl(bytes, expr_const(3, 32))
+}
+
 pub fn lwl(
     control_flow_graph: &mut ControlFlowGraph,
     instruction: &capstone::Instr,
+    endian: &Endian,
 ) -> Result<(), Error> {
     let detail = details(instruction)?;
 
     // get operands
     let dst = get_register(detail.operands[0].reg())?.scalar();
+    // the old value of rt: $zero reads as the constant 0
+    let old = get_register(detail.operands[0].reg())?.expression();
     let base = get_register(detail.operands[1].mem().base)?.expression();
     let offset = expr_const(detail.operands[1].mem().disp as u64, 32);
 
@@ -1073,32 +1093,19 @@ pub fn lwl(
         let block = control_flow_graph.new_block()?;
 
         let address = Expr::add(base, offset)?;
+        let bits = unaligned_bits(&address, endian, true)?;
 
-        // get the number of bits to clear
-        let bytes_to_clear = Expr::sub(
-            expr_const(4, 32),
-            Expr::and(expr_const(3, 32), address.clone())?,
-        )?;
-        let bits_to_clear = Expr::shl(bytes_to_clear, expr_const(3, 32))?;
-
-        // get the number of bytes to shift the result
-        let bytes_to_shift = Expr::and(expr_const(3, 32), address.clone())?;
-        let bits_to_shift = Expr::shl(bytes_to_shift, expr_const(3, 32))?;
-
+        // the aligned word holding the addressed byte
         let tmp = Scalar::temp(instruction.address, 32);
-        block.load(tmp.clone(), address);
+        block.load(
+            tmp.clone(),
+            Expr::and(expr_const(0xffff_fffc, 32), address)?,
+        );
 
-        // clear the dst register by shifting left then right
-        // the old value of rt: $zero reads as the constant 0
-        let old = get_register(detail.operands[0].reg())?.expression();
-        let dst_expr = Expr::shl(old, bits_to_clear.clone())?;
-        let dst_expr = Expr::shr(dst_expr, bits_to_clear)?;
-
-        // zero out the right bits in the loaded word
-        let tmp = Expr::shl(Expr::shr(tmp.into(), bits_to_shift.clone())?, bits_to_shift)?;
-
-        // or together
-        let dst_expr = Expr::or(dst_expr, tmp)?;
+        // the bytes from the addressed one to the least-significant end of the
+        // word move to the most-significant end of rt, the rest of rt stays
+        let keep = Expr::sub(Expr::shl(expr_const(1, 32), bits.clone())?, expr_const(1, 32))?;
+        let dst_expr = Expr::or(Expr::shl(tmp.into(), bits)?, Expr::and(old, keep)?)?;
 
         block.assign(dst, dst_expr);
 
@@ -1114,45 +1121,35 @@ pub fn lwl(
 pub fn lwr(
     control_flow_graph: &mut ControlFlowGraph,
     instruction: &capstone::Instr,
+    endian: &Endian,
 ) -> Result<(), Error> {
     let detail = details(instruction)?;
 
     // get operands
     let dst = get_register(detail.operands[0].reg())?.scalar();
+    // the old value of rt: $zero reads as the constant 0
+    let old = get_register(detail.operands[0].reg())?.expression();
     let base = get_register(detail.operands[1].mem().base)?.expression();
     let offset = expr_const(detail.operands[1].mem().disp as u64, 32);
 
     let block_index = {
         let block = control_flow_graph.new_block()?;
 
-        let effective = Expr::add(base, offset)?;
-        let address = Expr::sub(effective.clone(), expr_const(3, 32))?;
+        let address = Expr::add(base, offset)?;
+        let bits = unaligned_bits(&address, endian, false)?;
 
-        // create a bit mask for dst and the loaded result: (ea & 3) + 1 bytes,
-        // 1 << 32 is 0, so that the mask is all ones when the whole word moves
-        let mask_bytes = Expr::add(
-            Expr::and(effective, expr_const(3, 32))?,
-            expr_const(1, 32),
-        )?;
-        let mask_bits = Expr::shl(mask_bytes, expr_const(3, 32))?;
-        let mask_bit = Expr::shl(expr_const(1, 32), mask_bits)?;
-        let mask = Expr::sub(mask_bit, expr_const(1, 32))?;
-
-        // load our word from memory
+        // the aligned word holding the addressed byte
         let tmp = Scalar::temp(instruction.address, 32);
-        block.load(tmp.clone(), address);
+        block.load(
+            tmp.clone(),
+            Expr::and(expr_const(0xffff_fffc, 32), address)?,
+        );
 
-        // we want to and this word with our mask to remove the high bits
-        let temp = Expr::and(tmp.into(), mask.clone())?;
-
-        // and out the bits we're about to set in dst
-        // (the old value of rt: $zero reads as the constant 0)
-        let dst_expr = Expr::and(
-            get_register(detail.operands[0].reg())?.expression(),
-            Expr::sub(expr_const(0xffff_ffff, 32), mask)?,
-        )?;
-
-        let dst_expr = Expr::or(dst_expr, temp)?;
+        // the bytes from the most-significant end of the word to the addressed
+        // one move to the least-significant end of rt, the rest of rt stays
+        let loaded = Expr::shr(expr_const(0xffff_ffff, 32), bits.clone())?;
+        let keep = Expr::sub(expr_const(0xffff_ffff, 32), loaded)?;
+        let dst_expr = Expr::or(Expr::shr(tmp.into(), bits)?, Expr::and(old, keep)?)?;
 
         block.assign(dst, dst_expr);
 
@@ -2425,6 +2422,7 @@ pub fn sw(
 pub fn swl(
     control_flow_graph: &mut ControlFlowGraph,
     instruction: &capstone::Instr,
+    endian: &Endian,
 ) -> Result<(), Error> {
     let detail = details(instruction)?;
 
@@ -2437,38 +2435,21 @@ pub fn swl(
         let block = control_flow_graph.new_block()?;
 
         let address = Expr::add(base, offset)?;
+        let aligned = Expr::and(expr_const(0xffff_fffc, 32), address.clone())?;
+        let bits = unaligned_bits(&address, endian, true)?;
 
         // load the value currently in memory
         let tmp = Scalar::temp(instruction.address, 32);
-        block.load(
-            tmp.clone(),
-            Expr::and(expr_const(0xffff_fffc, 32), address.clone())?,
-        );
+        block.load(tmp.clone(), aligned.clone());
 
-        // create a mask for our value
-        let mask_bytes = Expr::and(address.clone(), expr_const(3, 32))?;
-        // we want the opposite of the number of bytes we are storing
-        let mask_bytes = Expr::sub(expr_const(4, 32), mask_bytes)?;
-        let mask_bits = Expr::shl(mask_bytes, expr_const(3, 32))?;
-
-        let mask = Expr::sub(Expr::shl(expr_const(1, 32), mask_bits)?, expr_const(1, 32))?;
-
-        // and the loaded value with our mask
-        // this operation inverts the mask
-        let tmp = Expr::and(Expr::sub(expr_const(0xffff_ffff, 32), mask)?, tmp.into())?;
-
-        // figure out how many bits we should shift our value right
-        let shift_bytes = Expr::and(address.clone(), expr_const(3, 32))?;
-        let shift_bits = Expr::shl(shift_bytes, expr_const(3, 32))?;
-
-        // shift the value right
-        let rt = Expr::shr(rt, shift_bits)?;
-
-        // or them together
-        let expr = Expr::or(tmp, rt)?;
+        // the most-significant bytes of rt replace the bytes from the addressed
+        // one to the least-significant end of the word
+        let stored = Expr::shr(expr_const(0xffff_ffff, 32), bits.clone())?;
+        let keep = Expr::sub(expr_const(0xffff_ffff, 32), stored)?;
+        let expr = Expr::or(Expr::and(keep, tmp.into())?, Expr::shr(rt, bits)?)?;
 
         // store it back in memory
-        block.store(Expr::and(expr_const(0xffff_fffc, 32), address)?, expr);
+        block.store(aligned, expr);
 
         block.index()
     };
@@ -2482,6 +2463,7 @@ pub fn swl(
 pub fn swr(
     control_flow_graph: &mut ControlFlowGraph,
     instruction: &capstone::Instr,
+    endian: &Endian,
 ) -> Result<(), Error> {
     let detail = details(instruction)?;
 
@@ -2493,37 +2475,22 @@ pub fn swr(
     let block_index = {
         let block = control_flow_graph.new_block()?;
 
-        let effective = Expr::add(base, offset)?;
-        let address = Expr::sub(effective.clone(), expr_const(3, 32))?;
+        let address = Expr::add(base, offset)?;
+        let aligned = Expr::and(expr_const(0xffff_fffc, 32), address.clone())?;
+        let bits = unaligned_bits(&address, endian, false)?;
 
-        // create a bit mask for dst and the loaded result: (ea & 3) + 1 bytes,
-        // 1 << 32 is 0, so that the mask is all ones when the whole word moves
-        let mask_bytes = Expr::add(
-            Expr::and(effective, expr_const(3, 32))?,
-            expr_const(1, 32),
-        )?;
-        let mask_bits = Expr::shl(mask_bytes, expr_const(3, 32))?;
-        let mask_bit = Expr::shl(expr_const(1, 32), mask_bits)?;
-        let mask = Expr::sub(mask_bit, expr_const(1, 32))?;
-
-        // load our word from memory
+        // load the value currently in memory
         let tmp = Scalar::temp(instruction.address, 32);
-        block.load(tmp.clone(), address.clone());
+        block.load(tmp.clone(), aligned.clone());
 
-        // zero out the words we're about to set in dst
-        let dst_expr = Expr::and(
-            tmp.into(),
-            Expr::sub(expr_const(0xffff_ffff, 32), mask.clone())?,
-        )?;
-
-        // zero out the bits we're not setting in rt
-        let rt = Expr::and(rt, mask)?;
-
-        // or the two together
-        let dst_expr = Expr::or(dst_expr, rt)?;
+        // the least-significant bytes of rt replace the bytes from the
+        // most-significant end of the word to the addressed one
+        let stored = Expr::shl(expr_const(0xffff_ffff, 32), bits.clone())?;
+        let keep = Expr::sub(expr_const(0xffff_ffff, 32), stored)?;
+        let expr = Expr::or(Expr::and(keep, tmp.into())?, Expr::shl(rt, bits)?)?;
 
         // store it back in memory
-        block.store(address, dst_expr);
+        block.store(aligned, expr);
 
         block.index()
     };
